@@ -128,8 +128,9 @@ def _path_obligations(contract, cfg, ctx, kind, payload, pi, base, res, tier, fi
         okind, val = payload
         if okind == 'ok':
             ens = contract.ensures(h, cfg, h, val) or {}
+            eh = contract.ensure_hints(h, cfg, h, val) or []
             for nm, clause in ens.items():
-                ctx.oblige('ensures.' + nm, clause, kind='ensures')
+                ctx.oblige('ensures.' + nm, clause, kind='ensures', hints=eh)
             expect = 'ok'
         else:
             pr = val
